@@ -17,7 +17,10 @@ import time
 ROOT = os.path.dirname(os.path.dirname(os.path.abspath(__file__)))
 
 #: seeded changes that are decided by another property's check than the one they were written for
-OWNER = {"C08_r2": "C19"}
+OWNER = {"C08_r2": "C19", "C07_r4": "C06", "C18_r4": "C16"}
+
+#: seeded changes no check decides (see the seed's meta.json and DESIGN.md 12.7); they are run and reported, not counted
+UNDECIDED = {"C10_r4"}
 
 
 def sh(cmd, cwd=None, env=None, timeout=3600):
@@ -58,8 +61,10 @@ def main():
             sh(f"git -C /repo worktree remove --force {wt}")
             sh(f"rm -rf {wt}")
         print(name, json.dumps(results[name]), flush=True)
-    missed = [p for p, r in results.items() if not r.get("detected")]
-    print(f"mutants: {len(results) - len(missed)}/{len(results)} detected; missed: {missed}")
+    missed = [p for p, r in results.items() if not r.get("detected") and p not in UNDECIDED]
+    undecided = [p for p in results if p in UNDECIDED]
+    print(f"mutants: {len(results) - len(missed) - len(undecided)}/{len(results) - len(undecided)} detected; missed: {missed}; "
+          f"undecided by design: {[(p, results[p].get('detected')) for p in undecided]}")
     sys.exit(1 if missed else 0)
 
 
